@@ -134,6 +134,10 @@ def run_seq_property(prop, tier, seed):
     from . import models
     jobs = plans.jobs_for(prop, tier, seed)
     mods = list(models.MODELS.get(prop, ()))
+    if prop in ("C01", "C02", "C05", "C15"):
+        # the stateless low-level allocators (heap, malloc, new, virtual memory): driver `lowlevel`, contract FenceTrace
+        from . import plans_lowlevel
+        jobs += plans_lowlevel.history_jobs(prop, tier, seed, leak_only=(prop == "C15"))
     if prop == "C18":      # the table part: min_block_size suffices (driver `tables`, contract TablesTrace)
         from . import plans_tables
         jobs += plans_tables.jobs("C18", tier, seed)
